@@ -32,19 +32,19 @@ let ser_string (line : string) : string =
     let (single, base, is_desc, lists) = context ctx in
     let depth = int_of_string depth in
     let level = init + base + (if lists then depth else 0) in
-    let st = { st_prefix = (if single then None else Option.map str_of_ascii prefix);
-               st_level = n_of_int level } in
+    let st = { se_prefix = (if single then None else Option.map str_of_ascii prefix);
+               se_level = n_of_int level } in
     let s = str_of_hex h in
     let res =
       if is_desc then
-        (match serialize_description st (Some s) with SOk (lit, _) -> SOk lit | SPanic -> SPanic)
-      else serialize_string_value st false s in
+        (match se_serialize_description st (Some s) with SuOk (lit, _) -> SuOk lit | SuPanic -> SuPanic)
+      else se_serialize_string_value st false s in
     (match res with
-     | SPanic -> "panic"
-     | SOk lit ->
+     | SuPanic -> "panic"
+     | SuOk lit ->
        (* cross-check of C09_chooser on this input *)
-       (match classify_literal lit, string_of_token lit with
-        | (LQuoted _ | LBlock _), SOk v when v = s -> "lit " ^ hex_of_str lit
+       (match sl_classify_literal lit, su_string_of_token lit with
+        | (SlQuoted _ | SlBlock _), SuOk v when v = s -> "lit " ^ hex_of_str lit
         | _ -> "model-failure the model's literal does not decode to the string: " ^ hex_of_str lit))
   | _ -> failwith "ser_string line"
 
